@@ -23,8 +23,7 @@ CLAIM = dict(
          "and S+I(+R)=N is structural where the tuple is built by subtraction. The model is tied to /repo on every run by comparing the extracted "
          "model's row 0 with the implementation's on random relabelled graphs; an independent Python oracle checks times, row 0, conservation, "
          "bounds and SIR monotonicity on the output of every ODE entry point.  Conservation / sign clauses of the right-hand sides: over the GENERATED scalar/1-D systems "
-         "(Gen/Rhs.v), and over hand-written models of the node-level and 2-D systems (coq/Model/Rhs2D.v, tied to the code by point evaluation on every run, >=200 points per "
-         "function): individual-based and pair-based SIR dX_i+dY_i=-gamma_i*Y_i (Z_i=1-X_i-Y_i grows at gamma_i*Y_i), dX_i<=0; individual-based SIS inward on the faces Y_i=0,1; "
+         "(Gen/Rhs.v), and over hand-written models of the node-level and 2-D systems (coq/Model/Rhs2D.v; on every run translate/rhs2d2v.py, fail-closed, regenerates coq/Gen/Rhs2.v from the source and the theorems *_generated_* re-prove generated definition = model; model and generated definition are also point-evaluated against the code, >=200 points per function): individual-based and pair-based SIR dX_i+dY_i=-gamma_i*Y_i (Z_i=1-X_i-Y_i grows at gamma_i*Y_i), dX_i<=0; individual-based SIS inward on the faces Y_i=0,1; "
          "heterogeneous pairwise: S_k+I_k=N_k and the pair total structural (SIS), dS_k+dI_k=-gamma*I_k and dS_k<=0 (SIR), [S_kS_l] stays symmetric, pair counts stay consistent "
          "with class sizes; effective degree SIS: exact totals of both blocks and sum(dS_si+dI_si)=0 on the feasible region (with an example off it where the code loses mass), "
          "SIR: dR=gamma*(N-S-R), total S non-increasing.",
@@ -37,8 +36,9 @@ CLAIM = dict(
          "and EBCM_from_graph (partial) wrappers, following the code after the fix: commits (no refutation is left; acceptance of SIS_heterogeneous_pairwise_from_graph is proved, its row 0 shown on an example); "
          "the other entry points (solver-level functions, SIS effective degree, compact effective degree, "
          "heterogeneous pairwise, pref-mix, individual/pair based, Attack_rate_*_from_graph) are covered by the oracle (and, for the 17 wrappers, the row-0 correspondence) only "
-         "as far as row 0 / acceptance go; their right-hand sides' conservation and sign clauses are proved over the hand-written Model/Rhs2D.v (not regenerated from the source: "
-         "the tie is the point evaluation, and each such theorem is also re-evaluated numerically on the Python functions).")
+         "as far as row 0 / acceptance go; their right-hand sides' conservation and sign clauses are proved over the hand-written Model/Rhs2D.v, which is proved equal on every run to the "
+         "definitions regenerated from the source (theorems C06_generated_*; pair-based under index_of_node = enumerate(nodelist) over a simple graph); each such theorem is also "
+         "re-evaluated numerically on the Python functions.")
 
 TOL0 = 1e-9
 
@@ -333,10 +333,12 @@ def run(run, tier):
                           'update the model and replace the _refuted theorem by the positive one' % (thm, clause),
                           {'case': wc, 'clause': clause, 'broken': 'Props/C06.v ' + thm}, no_input=True)
     if proof_broken:
-        run.violation('C06/proof', 'Props/C06.v no longer checks (%s): %s; the oracle below found %d violating cases' % (props.get('failed_at'), props['log'][-300:], nviol),
-                      {'broken': 'coq/Props/C06.v', 'log': props['log'],
-                       'case': (min(seen.values(), key=lambda x: x[0])[2] if seen else None), 'clause': (min(seen.values(), key=lambda x: x[0])[3] if seen else None)},
-                      no_input=(nviol == 0))
+        new_seen = {k: v for k, v in seen.items() if k not in set(kk)}          # violations that are not known findings
+        w = min(new_seen.values(), key=lambda x: x[0]) if new_seen else None
+        run.violation('C06/proof', 'Props/C06.v no longer checks (%s): %s; the entry-point oracle found %d violating cases that are not known findings, the numerical versions of the '
+                      'right-hand-side theorems %d' % (props.get('failed_at'), props['log'][-300:].replace('\n', ' '), len(new_seen), blk['found']),
+                      {'broken': 'coq/Props/C06.v', 'log': props['log'], 'case': (w[2] if w else None), 'clause': (w[3] if w else None)},
+                      no_input=(not new_seen and not blk['found']))
     for key, (size, what, case, clause, obs) in seen.items():
         run.violation(key, what + ' [%s]' % ', '.join(qualifiers(case, OC.Oracle(case, OC.ENTRIES[case['entry']].sir))),
                       {'case': case, 'clause': clause, 'observed_row0': short(obs) if obs else None})
@@ -372,7 +374,7 @@ def replay(rp):
         res = S2.case_spec(EoN, r['params'])
         print('replay rhs2_spec: %s' % (res or 'holds'))
         return 1 if res else 0
-    if 'case' not in r:
+    if not r.get('case'):
         print('replay: no concrete input recorded (%s)' % rp.get('what', '')[:200]); return 0
     case, clause = r['case'], r['clause']
     e, o, res, vio, obs = evaluate(EoN, case)
